@@ -79,7 +79,8 @@ func (b *CombinationColexIterator) Next() bool {
 	}
 
 	if b.j >= b.k-1 {
-		if b.data[b.k-1] == b.n-1 {
+		//The largest element can't be increased. It starts above n-1 when k > n and there are no subsets at all.
+		if b.data[b.k-1] >= b.n-1 {
 			return false
 		}
 		b.data[b.k-1]++
